@@ -110,6 +110,9 @@ func cmdCheck(args []string) int {
 	for _, l := range res.Lines {
 		fmt.Println(l)
 	}
+	if res.AbsQueries > 0 {
+		fmt.Printf("symgo: abstract-arithmetic pre-pass: %d queries (%d unsat) %.1fs\n", res.AbsQueries, res.AbsUnsat, res.AbsTime)
+	}
 	fmt.Printf("symgo: property=%s tier=%s harnesses=%d paths=%d queries=%d (sat %d, unsat %d, unknown %d) solver=%.1fs wall=%.1fs verdict=%s\n",
 		prop, *tier, res.Harnesses, res.Paths, res.Queries, res.NSat, res.NUnsat, res.Unknowns, res.SolverTime, res.Wall, res.Verdict)
 	switch res.Verdict {
@@ -149,6 +152,9 @@ type checkResult struct {
 	Fallback     map[string]int
 	Validated    int
 	LoadSecs     float64
+	AbsQueries   int
+	AbsUnsat     int
+	AbsTime      float64
 }
 
 type vioReport struct {
@@ -258,6 +264,7 @@ func runCheck(prop, tier string, seed int, only string, verbose bool, workers in
 	res.Unknowns = ex.Unknowns
 	res.SolverTime = ex.SolverTime.Seconds()
 	res.Status = ex.Status
+	res.AbsQueries, res.AbsUnsat, res.AbsTime = ex.AbsQueries, ex.AbsUnsat, ex.AbsTime.Seconds()
 	for k := range ex.Encoded {
 		if strings.Contains(k, modPath) && !strings.Contains(k, "zzverif") && !strings.Contains(k, "ZZ_") && !strings.Contains(k, "zz") {
 			res.Encoded = append(res.Encoded, strings.ReplaceAll(k, modPath+"/", ""))
@@ -622,6 +629,9 @@ func writeEvidence(prop, tier string, seed int, r *checkResult) {
 		"solver_unknown":                r.Unknowns,
 		"solver_fallback_decided":       r.Fallback,
 		"solver_time_s":                 r.SolverTime,
+		"abstract_prepass_queries":      r.AbsQueries,
+		"abstract_prepass_unsat":        r.AbsUnsat,
+		"abstract_prepass_time_s":       r.AbsTime,
 		"load_and_ssa_build_s":          r.LoadSecs,
 		"bounds_cut_paths":              r.Bounds,
 		"unwinding_incomplete":          r.Unwinds,
